@@ -9,7 +9,8 @@
             "unknown" (well-formed JSON objects that are not valid requests)
      sent   how many bytes of the H+P byte frame reach the server before the client closes
             (0 = connect and close; H+P = complete), or Oversize: the header announces one
-            byte more than is ever sent
+            byte more than is ever sent, or TrailBase+k: the complete frame followed, in the same
+            write, by the first k bytes of a second frame (a client that pipelines or misframes)
      waits  a client that sent a complete frame either waits for the reply or closes at once
 
    Server actions, one per step of serve():
@@ -25,15 +26,21 @@
    harness, and the FALSE settings are kept as specification-level mutants):
      CatchReceiveError  serve() keeps serving when receive() raises OSError
      ResetOnAccept      a new connection starts with empty buffer / message_size None
+     ResetOnEof         (not what the code does) the reassembly state is dropped where EOF is met instead:
+                        bytes that FOLLOW a complete frame survive into the next connection
      CatchSendError     the final send() tolerates a client that hung up
 *)
 EXTENDS Naturals, Sequences, FiniteSets, TLC, Json
-CONSTANTS CatchReceiveError, ResetOnAccept, CatchSendError, MaxConns, MaxEdits, Classes
+CONSTANTS CatchReceiveError, ResetOnAccept, ResetOnEof, CatchSendError, MaxConns, MaxEdits, Classes
 H == 4
 P == 2
 L == H + P
 NoSize == 999
 Oversize == 99
+TrailBase == 100
+TrailLens == {2, H + 1}                                \* part of a header; a header and one payload byte
+TrailClasses == {"status", "check"}
+IsComplete(n) == n = L \/ n > TrailBase               \* the server receives this client's whole request
 GoodCmds == {"status", "check", "stop"}
 ReplyingClasses == {"nocmd", "cmdnotstr", "unknown"}   \* answered with {"error": ...}
 RaisingClasses == {"garbage", "nondict"}               \* receive() raises OSError
@@ -58,13 +65,16 @@ NoCur == [cls |-> "none", intact |-> TRUE]
 \* the bytes client c sends for its plan
 HdrBytes(n) == <<[h |-> 0], [h |-> 0], [h |-> 0], [h |-> n]>>
 PayBytes(c) == [k \in 1..P |-> [c |-> c, o |-> k]]
+TrailBytes(c, k) == SubSeq(HdrBytes(P) \o [j \in 1..P |-> [c |-> c, o |-> P + j]], 1, k)
 Bytes(c, p) == IF p.sent = Oversize THEN HdrBytes(P + 1) \o PayBytes(c)
+               ELSE IF p.sent > TrailBase THEN HdrBytes(P) \o PayBytes(c) \o TrailBytes(c, p.sent - TrailBase)
                ELSE SubSeq(HdrBytes(P) \o PayBytes(c), 1, p.sent)
 Plans == [cls : Classes, sent : 0..(L - 1), waits : {FALSE}]
          \cup [cls : Classes, sent : {Oversize}, waits : {FALSE}]
          \cup [cls : Classes, sent : {L}, waits : BOOLEAN]
+         \cup [cls : Classes \cap TrailClasses, sent : {TrailBase + k : k \in TrailLens}, waits : {TRUE}]
 \* classes only matter for complete frames: canonical class for incomplete ones
-Canon(p) == IF p.sent = L THEN p ELSE [p EXCEPT !.cls = "status"]
+Canon(p) == IF IsComplete(p.sent) THEN p ELSE [p EXCEPT !.cls = "status"]
 
 Init == /\ spc = "accept" /\ status = TRUE /\ buffer = <<>> /\ msgSize = NoSize /\ wire = <<>>
         /\ peerOpen = FALSE /\ conn = 0 /\ plan = NoPlan /\ cur = NoCur /\ ver = 0 /\ edits = 0
@@ -77,7 +87,7 @@ Edit == /\ spc = "accept" /\ edits < MaxEdits /\ edits' = edits + 1 /\ ver' = 1 
 Accept == /\ spc = "accept" /\ conn < MaxConns
           /\ \E p \in Plans : /\ p = Canon(p)
                               /\ plan' = p /\ wire' = Bytes(conn + 1, p)
-                              /\ peerOpen' = (p.sent = L /\ p.waits)
+                              /\ peerOpen' = (IsComplete(p.sent) /\ p.waits)
           /\ conn' = conn + 1 /\ spc' = "read" /\ cur' = NoCur
           /\ IF ResetOnAccept THEN buffer' = <<>> /\ msgSize' = NoSize ELSE UNCHANGED <<buffer, msgSize>>
           /\ UNCHANGED <<status, ver, edits, stopped, obs, h>>
@@ -116,7 +126,8 @@ ReceiveFails == /\ spc = "read" /\ ~HaveFrame /\ Len(wire) = 0 /\ ~peerOpen
                 /\ IF CatchReceiveError THEN spc' = "accept" /\ status' = status
                                         ELSE spc' = "exited" /\ status' = FALSE
                 /\ Observe("closed")
-                /\ UNCHANGED <<buffer, msgSize, wire, peerOpen, conn, plan, cur, ver, edits, stopped>>
+                /\ IF ResetOnEof THEN buffer' = <<>> /\ msgSize' = NoSize ELSE UNCHANGED <<buffer, msgSize>>
+                /\ UNCHANGED <<wire, peerOpen, conn, plan, cur, ver, edits, stopped>>
 
 Run == /\ spc = "run"
        /\ IF cur.cls = "stop" THEN status' = FALSE /\ stopped' = TRUE      \* cmd_stop unlinks the status file first
@@ -154,8 +165,8 @@ Expected(cls, v) == IF cls = "check" THEN (IF v = 0 THEN "check0" ELSE "check1")
 RepliesRight ==
    \A i \in 1..Len(obs) : LET o == obs[i] IN
         /\ o.reply \notin {"closed", "unread"} => o.reply = Expected(o.cls, o.ver)
-        /\ (o.sent = L /\ o.waits /\ o.cls \notin RaisingClasses) => o.reply = Expected(o.cls, o.ver)
-        /\ (o.sent = L /\ ~o.waits /\ o.cls \notin RaisingClasses) => o.reply = "unread"
+        /\ (IsComplete(o.sent) /\ o.waits /\ o.cls \notin RaisingClasses) => o.reply = Expected(o.cls, o.ver)
+        /\ (IsComplete(o.sent) /\ ~o.waits /\ o.cls \notin RaisingClasses) => o.reply = "unread"
 \* a connection starts with a clean reassembly state
 TypeOK == /\ spc \in {"accept", "read", "run", "reply", "exited"}
           /\ msgSize \in 0..(P + 1) \cup {NoSize}
